@@ -26,6 +26,8 @@ func init() {
 }
 
 var c17Controls = []Control{
+	{Name: "escaped-slash-in-a-bracket-not-recorded", Rule: "R17g", WantKey: "regexpNext#bsb.WriteString(regexp.QuoteMeta(string(c)))", File: "pattern/pattern.go",
+		Mutate: ctlReplaceAnywhere("\t\t\t\tdefault:\n\t\t\t\t\tif filenames && c == '/' {\n\t\t\t\t\t\thasSlash = true\n\t\t\t\t\t}\n\t\t\t\t\tbsb.WriteString(regexp.QuoteMeta(string(c)))", "\t\t\t\tdefault:\n\t\t\t\t\tbsb.WriteString(regexp.QuoteMeta(string(c)))")},
 	{Name: "lexer-caches-the-previous-rune", Rule: "R17e", WantKey: "regexpNext#store 1 of the position keeps prev in step", File: "pattern/pattern.go",
 		Mutate: ctlChain(ctlReplaceAnywhere("type stringLexer struct {\n\ts string\n\ti int\n}", "type stringLexer struct {\n\ts string\n\ti int\n\tprev rune\n}"),
 			ctlReplaceAnywhere("\tc, size := utf8.DecodeRuneInString(sl.s[sl.i:])\n\tsl.i += size\n\treturn c\n", "\tc, size := utf8.DecodeRuneInString(sl.s[sl.i:])\n\tsl.i += size\n\tsl.prev = c\n\treturn c\n"))},
@@ -59,6 +61,8 @@ func runC17(p *Prog, r *Result) {
 	if n := checkLexerFieldsMoveTogether(p, r, "R17e"); n == 0 {
 		r.Notef("R17e: stringLexer.next() stores only the position on this tree; the rule is armed by a control")
 	}
+	r.Rule("R17g", "every write of pattern text into a bracket expression comes after the text was looked at for a slash (or is of a rune known to be another character): in Filenames mode a bracket never matches a path separator", 4)
+	checkBracketSlashesNoticed(p, r, "R17g")
 	r.Rule("R17f", "a string tested for a variable prefix and a variable suffix has the three lengths compared: the two are matched by disjoint parts", 1)
 	checkPrefixSuffixDisjoint(p, r, "R17f")
 }
